@@ -141,6 +141,20 @@ func c13HasDotDotSegment(s string) bool {
 	return false
 }
 
+// c13DotDotSegments counts the path segments that are exactly ".." ('.' or %2e twice).
+func c13DotDotSegments(s string) int {
+	if i := strings.IndexAny(s, "?#"); i >= 0 {
+		s = s[:i]
+	}
+	n := 0
+	for _, seg := range strings.FieldsFunc(s, func(r rune) bool { return r == '/' || r == '\\' }) {
+		if strings.Replace(asciiLower(seg), "%2e", ".", -1) == ".." {
+			n++
+		}
+	}
+	return n
+}
+
 // static is all the programmer-written text (the format without its markers); if one of its path segments is a
 // ".." the climb is the author's. A ".." inside a longer segment (/v1..2/) is no such licence.
 func c13ContainedStatic(static, prefix, result string) (bool, string) {
@@ -235,6 +249,10 @@ func c13Judge(c c13Case) (string, string, string) {
 				last = m.end
 			}
 			static.WriteString(c.Format[last:])
+			// no ".." segment may appear that the format does not spell out with static characters only
+			if n, m := c13DotDotSegments(res), c13DotDotSegments(fx.String()); n > m {
+				return "path-climb", "format-new-dotdot-segment args=" + c13ArgSet(c.Args), fmt.Sprintf("result %q has %d \"..\" segments, the format spells out %d", res, n, m)
+			}
 			if ok, why := c13ContainedStatic(static.String(), c.Format[:ms[0].start], res); !ok {
 				return "path-climb", "format args=" + c13ArgSet(c.Args), fmt.Sprintf("result %q: %s", res, why)
 			}
@@ -460,6 +478,25 @@ func checkC13(r *core.Run) {
 		run(c13Case{Op: "params", Format: "https://x.com/a?b=c#f", Args: map[string]string{"k": v, v: "v"}}, "WithParams(k="+core.Q(v)+")")
 	})
 	r.Set("layer_long", fmt.Sprintf("5 padding units x 9 cores x every padding length 0..300 x 3 placements x 5 operations: %d", nl*5))
+	// formats with several markers: dots that only markers keep apart, partial escapes completed by arguments
+	var nmm int64
+	mfmts := []string{"/lib/v%{x}.%{y}/%{a}%{b}/z.js", "/lib/v%{x}.%{y}.%{x}/%{a}%{b}/z.js", "/a/.%{x}.", "/a/.%{x}./b/.%{y}", "/a/%{x}.%{y}./%{a}%{b}", "https://x.com/l/%2e%2%{x}", "/s/.%2%{x}/b.js", "/a/%2%{x}%2%{y}/z",
+		"/a/%{x}%{y}%{a}%{b}", "/a/.%{x}%{y}", "/a/%{x}.%{y}", "/a.%{x}.b/%{a}.%{b}"}
+	mvals := []string{"", ".", "e", "E", "1", "%2e", "2e"}
+	for _, f := range mfmts {
+		for _, x := range mvals {
+			for _, y := range mvals {
+				for _, a := range []string{".", "", "1"} {
+					for _, b := range []string{".", "", "e"} {
+						args := map[string]string{"x": x, "y": y, "a": a, "b": b}
+						run(c13Case{Op: "format", Format: f, Args: args}, fmt.Sprintf("Format(%q x=%q y=%q a=%q b=%q)", f, x, y, a, b))
+						nmm++
+					}
+				}
+			}
+		}
+	}
+	r.Set("layer_multi_marker", fmt.Sprintf("%d formats with up to 4 markers x 7^2 x 3^2 argument assignments: %d", len(mfmts), nmm))
 	// Append
 	bases := []string{"https://x.com/a/b/", "https://x.com/a/b", "https://x.com/a/b/.", "https://x.com/a/%2e", "//x.com/", "/a/", "/a", "about:blank#", "https://x.com/a?q=", "https://x.com/a#f",
 		"http://x.com/", "x.com/", "javascript:", "", "/", "//", "/\\x", "https:///x", "/a/b/..", "https://x.com/a/b/c.", "/a/./",
